@@ -1042,7 +1042,7 @@ def _run(ctx, torch):
         "Float model vs float64 code compared with tolerance (1e-12 forward, 1e-13 buffers, 1e-14/1e-15 weights and grids), theorems are about the ℝ instance of the same definitions",
         "the model is one batch element at a time; batch shapes are checked on the real code only (oracle batch-shapes)",
         "direct evaluation uses the real o3.spherical_harmonics (C05) as the reference Y^l",
-        "SO3Grid: integer aspect_ratio only; S2Activation/SO3Activation are checked on the real code only (no model)",
+        "SO3Grid: integer aspect_ratio only; S2Activation/SO3Activation are checked on the real code only (the model has S2Activation.forward and the theorem for linear activations, not run by the driver; polynomial equivariance is oracle-checked only)",
         "rfft with res = 0 and irfft with sm = 0 (empty tensors) are not compared",
     ]
 
